@@ -617,7 +617,9 @@ TakeRecord(a, rec) ==
                  ELSE ViolK(a3, IF a.rt[e.r].dcancel THEN "C04" ELSE IF AdProp(a, e.n) # None THEN AdProp(a, e.n) ELSE "C06", cb, [rec |-> rec, must |-> e.must],
                             IF cb = "missing-attachment" /\ cid \in a.cut THEN "cut"
                             ELSE IF cb \in {"missing-attachment", "duplicate-attachment"} /\ twin THEN "twin" ELSE None)
-           a4 == IF cb # "ok" /\ e.own /\ WasOver(a, e.sc) THEN Viol(a4x, "C09", "recorded-span-changed-beyond-the-scope-limit", [w |-> cb, rec |-> rec, must |-> e.must]) ELSE a4x
+           \* a copy of a captured set pushed under a parent: the copies are identical (C17)
+           a4y == IF cb # "ok" /\ e.own /\ Has(a.ls, e.sc) /\ a.rt[e.r].cid \notin a.cut THEN Viol(a4x, "C17", "copies-differ-in-content", [w |-> cb, rec |-> rec, must |-> e.must]) ELSE a4x
+           a4 == IF cb # "ok" /\ e.own /\ WasOver(a, e.sc) THEN Viol(a4y, "C09", "recorded-span-changed-beyond-the-scope-limit", [w |-> cb, rec |-> rec, must |-> e.must]) ELSE a4y
            tb == TimeBad(a, rec)
            a5 == IF tb = "ok" THEN a4
                  ELSE LET v == Viol(a4, "C18", tb, [rec |-> rec, tm |-> a.tm[rec.name]]) IN
@@ -649,8 +651,14 @@ BatchRules(a0, a, got) ==
                     ELSE LET r == CHOOSE x \in rs : TRUE
                              b == bad(r)
                              k == IF b \in {"incomplete", "without-root-record"} /\ a0.rt[r].cid \in a.cut THEN "cut" ELSE None
-                             st1 == IF b = "ok" THEN st
+                             st0 == IF b = "ok" THEN st
                                     ELSE ViolK(st, IF b = "incomplete" /\ AdProp(a0, r) # None THEN AdProp(a0, r) ELSE "C03", b, [root |-> r], k)
+                             \* the missing member is a span with several parents one of whose other traces was
+                             \* cancelled: "cancel() suppresses that trace and nothing else" (C04)
+                             lostSib == {m \in a0.rt[r].mem : ~Excused(r, m) /\ (~\E e \in Rng(got) : e.r = r /\ e.n = m.n /\ e.par = m.par /\ e.ci = m.ci)
+                                                               /\ \E x \in a0.never : x.n = m.n /\ x.p = "C04" /\ x.r # r}
+                             st1 == IF b = "incomplete" /\ lostSib # {}
+                                    THEN ViolK(st0, "C04", "copy-lost-with-a-cancelled-sibling-trace", [root |-> r, spans |-> {m.n : m \in lostSib}], k) ELSE st0
                          IN go([st1 EXCEPT !.rt[r].done = TRUE, !.exp = {x \in @ : x.r # r}, !.opt = {x \in @ : x.r # r},
                                            !.dl = @ \cup {[n |-> x.n, tr |-> x.tr, r |-> x.r, par |-> x.par, ci |-> x.ci] : x \in {y \in st1.opt : y.r = r}}],
                                rs \ {r}) IN
@@ -746,6 +754,13 @@ Ids(a, e) ==
   IF Cardinality(S) # Len(e.ids)
   THEN Viol(a1, "C02", "span-ids-not-distinct", [spans |-> Len(e.ids), distinct |-> Cardinality(S), threads |-> e.threads])
   ELSE a1
+
+\* a long backlog on one queue (fewer commands than the queue holds, so nothing is refused), no cycle in
+\* between, then one flush(): everything finished before the call is there when it returns (C01 / C03)
+Burst(a, e) ==
+  IF e.by_flush = e.finished THEN a
+  ELSE Viol(a, IF a.cfg.cancelable THEN "C03" ELSE "C01", "backlog-not-delivered-by-flush",
+            [finished |-> e.finished, delivered_when_flush_returned |-> e.by_flush, after_two_more |-> e.later, other_thread |-> e.cross])
 
 \* at quiescence (no call in progress, two full cycles since the last one): the collector keeps an
 \* entry only for sampled roots that are still open, and no receiver of an exited thread (C08)
@@ -858,6 +873,7 @@ AbsStep(a, e) ==
     [] e.ev = "stats"     -> Stats(a, e)
     [] e.ev = "idle"      -> Idle(a, e)
     [] e.ev = "ids"       -> Ids(a, e)
+    [] e.ev = "burst"     -> Burst(a, e)
     [] OTHER              -> a
 
 RECURSIVE AbsRun(_, _, _)
